@@ -59,10 +59,6 @@ class Monitor(object):
                 if last is not None and woke > last[0]:
                     # it slept on the condition, was woken, and went on to wait again WITHOUT looking at its result
                     sig += ":woken-and-did-not-look"
-                if lt.block_kind != "stream.poll.wait" and lt.block_step < rs:
-                    # it was ALREADY parked on the condition when its reply was processed: the hand-off that followed did
-                    # not wake it (a missed notification, whoever holds the lock now)
-                    sig += ":parked-before-the-reply-was-processed"
                 if lt.block_kind != "stream.poll.wait":
                     # waiting for the receive lock: who holds it?  (a waiter parked behind another stalled
                     # waiter is a cascade of the same defect; parked while the lock is free is a lost notification)
